@@ -298,7 +298,7 @@ def validate_trace(lines, transport, wd, tag):
         # a step property of MCAgent failed on the recorded run: report the depth
         m2 = re.findall(r"^State (\d+):", out, flags=re.M)
         return (int(m2[-1]) - 1 if m2 else 1), res
-    raise ToolError("trace validation did not run cleanly:\n" + "\n".join(out.splitlines()[-30:]))
+    raise ToolError("trace validation did not run cleanly:\n" + "\n".join(l[:300] for l in out.splitlines()[-30:] if not l.startswith('"EXPECT')))
 
 
 def b2(pid, tier, seed, wd, rep):
